@@ -113,7 +113,7 @@ heapCheck(Heap h, int n)
 
 	for (i = 1; i < n; i++) {
 		ip = heapParent(i);
-		if (h[ip].key >= h[i].key) bug("Heap out of order.");
+		if (h[ip].key > h[i].key) bug("Heap out of order.");
 	}
 	return true;
 }
